@@ -19,6 +19,8 @@ func init() {
 func checkC07(c *Ctx, r *Report, tier string) {
 	round5(c, r, "C07")
 	round6(c, r, "C07")
+	round7(c, r, "C07")
+	round8(c, r, "C07")
 	x := newIdxLocks(c)
 	r.Rule("C07.R1", "links are symmetric: in the insert path every addEdge(l, B, d) on A is paired in the same block with addEdge(l, A, d) on B", 1)
 	r.Rule("C07.R2", "pruning only above the budget: each pruneNeighbors call on the insert path is guarded by edgesCount(l) > budget, budget = mMax0 on the l == 0 polarity and mMax otherwise; defaults are mMax = m, mMax0 = 2m", 3)
@@ -324,6 +326,7 @@ func budgetShape(f *ssa.Function, K, L ssa.Value, fMmax, fMmax0 *types.Var) (boo
 func checkC10(c *Ctx, r *Report, tier string) {
 	round5(c, r, "C10")
 	round6(c, r, "C10")
+	round7(c, r, "C10")
 	r.Rule("C10.R1", "the routing function is pure: no stores, no package-level reads, only pure callees (binary.LittleEndian/BigEndian.Uint64)", 1)
 	r.Rule("C10.R2", "the routing function's result is a remainder by its modulus parameter; its only panic-capable operations are remainders by that parameter", 1)
 	r.Rule("C10.R3", "one routing point: the only non-loop index into Dataset.partitions is route(id parameter, Meta().GetPartitionCount()); every single write obtains its partition from that function with the id it then operates on; the batch grouping buckets each item under route(item id) and forwards the bucket with that partition's id", 6)
